@@ -279,13 +279,14 @@ class Machine:
             elif op == "neg":
                 if not ops:
                     raise Fail("neg", "needs an operand")
-                ops[-1] = negate(o, ops[-1])
+                ops[-1] = negate(o, self.deref(ops[-1]))
             elif op == "not":
                 if not ops:
                     raise Fail("not", "needs an operand")
-                if not is_bool(ops[-1]):
+                v = self.deref(ops[-1])
+                if not is_bool(v):
                     raise Fail("not", "can only negate booleans")
-                ops[-1] = logic_not(ops[-1])
+                ops[-1] = logic_not(v)
             elif op == "fast_rev2":
                 if len(ops) != 2:
                     raise Fail("fast_rev2", "requires a stack size of 2")
@@ -307,7 +308,7 @@ class Machine:
             elif op == "assert":
                 if len(ops) != 1:
                     raise Fail("assert", "needs exactly one value")
-                v = ops.pop()
+                v = self.deref(ops.pop())
                 if not is_bool(v):
                     raise Fail("assert", "not a bool")
                 if not o.branch(v):
@@ -315,7 +316,7 @@ class Machine:
             elif op in ("if_stmt", "while_loop"):
                 if not ops:
                     raise Fail(op, "needs a condition")
-                c = ops.pop()
+                c = self.deref(ops.pop())
                 ops.clear()
                 if not is_bool(c):
                     raise Fail(op, "can only test booleans")
@@ -349,7 +350,7 @@ class Machine:
                     raise Fail("store_skip", "can only skip forwards")
                 if len(ops) != 1:
                     raise Fail("store_skip", "needs exactly one value")
-                v = ops[-1]
+                v = self.deref(ops[-1])
                 if not is_bool(v):
                     raise Fail("store_skip", "can only operate on bool")
                 pred = int(a[1])
